@@ -452,6 +452,7 @@ def _shard2(a, b):
 
 OBLIGATIONS = [
     Ob(id='C11.g', fn=ob_g, title='every query as the FIRST call of a fresh interpreter',
+       native_body=True,
        shard_of=lambda kind, a: kind, shards={'quick': 8, 'thorough': 8}, budget_s={'quick': 150, 'thorough': 600},
        witnesses=[{'kind': 0, 'a': 0}], min_confirmed=60, enumerated='query kind (8), category (8 inner / leaf categories)',
        realized_at=['fresh python interpreter per call (subprocess)'], bounds={'quick': '8 x 8 fresh interpreters', 'thorough': 'same'}),
